@@ -123,6 +123,12 @@ func init() {
 			}
 			b.WriteString(s + "\n")
 		}
+		s1, err := TranslateFunc(p, "Framer.SetMaxReadFrameSize", TransOpts{LeanName: "setMaxReadFrameSize", Num: "Nat",
+			Fields: []string{"maxReadSize"}, ReturnFields: true})
+		if err != nil {
+			return "", err
+		}
+		b.WriteString(s1 + "\n")
 		b.WriteString("end NetVerif.Gen.C06\n")
 		return b.String(), nil
 	})
